@@ -217,6 +217,12 @@ func dataAccumulator(b literal.Builder) ElementHook {
 			return hook, nil
 		}
 		tkn := ce.Token()
+		if tkn.Type == lexer.ItemInsert || tkn.Type == lexer.ItemDelete {
+			// A new statement starts: drop any partially accumulated triple
+			// left behind by a previous statement that failed to parse.
+			s, p, o = nil, nil, nil
+			return hook, nil
+		}
 		if tkn.Type != lexer.ItemNode && tkn.Type != lexer.ItemPredicate && tkn.Type != lexer.ItemLiteral {
 			return hook, nil
 		}
@@ -1035,9 +1041,8 @@ func collectGlobalBounds() ElementHook {
 		tkn := ce.token
 		switch tkn.Type {
 		case lexer.ItemBefore, lexer.ItemAfter, lexer.ItemBetween:
-			if lastToken != nil {
-				return nil, fmt.Errorf("invalid token %v after already valid token %v", tkn, lastToken)
-			}
+			// The grammar allows one global time bound per statement, so
+			// anything still recorded here was left by a previous statement.
 			opToken, lastToken = tkn, tkn
 		case lexer.ItemComma:
 			if lastToken == nil || opToken.Type != lexer.ItemBetween {
@@ -1076,6 +1081,7 @@ func collectGlobalBounds() ElementHook {
 			}
 			st.lookupOptions.LowerAnchor = &lowBound
 			st.lookupOptions.UpperAnchor = &upBound
+			opToken, lastToken = nil, nil
 		default:
 			return nil, fmt.Errorf("global bound found unexpected token %v", tkn)
 		}
